@@ -1041,88 +1041,3 @@ Proof.
   - done.
 Qed.
 
-(* ================================================================ the refuted class *)
-Definition k0 : list N := [107; 48].   (* "k0": shard 0 of 2 *)
-Definition k1 : list N := [107; 49].   (* "k1": shard 1 of 2 *)
-Definition d0 : list N := [100; 48].   (* "d0": shard 0 of 2 *)
-Definition d1 : list N := [100; 49].   (* "d1": shard 1 of 2 *)
-Definition va : list N := [97].
-Definition vb : list N := [98].
-
-(* a class command, run after [init] on 2 shards and on 1 shard, then a probe *)
-Definition refuted_by (init : list (req arg)) (c : cmd arg) (probe : req arg) : Prop :=
-  let shN := (runN mini home_str home_bytes (replicate 2 ∅) init).1 in
-  let sh1 := (runN mini home_str home_bytes [∅] init).1 in
-  Forall (SingleHome mini home_str 2) init /\
-  KnownClass mini home_str 2 (Generic c) /\ SingleHome mini home_str 2 probe /\
-  (runN mini home_str home_bytes shN [Generic c; probe]).2 <> (runN mini home_str home_bytes sh1 [Generic c; probe]).2.
-
-Local Open Scope string_scope.
-Ltac single_home_op :=
-  split; [split; [by vm_compute|eexists _, _; split; [by vm_compute|by vm_compute]]|
-          split; [intros [x [y [Hx [Hy Hne]]]]; cbn in Hx, Hy;
-                  repeat (apply elem_of_cons in Hx as [->|Hx]); repeat (apply elem_of_cons in Hy as [->|Hy]);
-                  try (by apply elem_of_nil in Hx); try (by apply elem_of_nil in Hy); try done
-                 |intros _; by vm_compute]].
-Ltac cross_op a b :=
-  left; exists a, b; split; [cbn; set_solver|split; [cbn; set_solver|vm_compute; lia]].
-Ltac differs := let H := fresh in intros H; vm_compute in H; discriminate H.
-
-Lemma two_key_witnesses :
-  refuted_by [Generic (COp "LPush" [d1] (ArgL [va]))] (COp "RPopLPush" [d1; d0] ArgNone) (Generic (COp "LLen" [d0] ArgNone)) /\
-  refuted_by [Generic (COp "LPush" [d1] (ArgL [va]))] (COp "LMove" [d1; d0] (ArgDir false true)) (Generic (COp "LLen" [d0] ArgNone)) /\
-  refuted_by [Generic (COp "Set" [k1] (ArgB va))] (COp "Rename" [k1; k0] ArgNone) (Generic (COp "Get" [k0] ArgNone)) /\
-  refuted_by [Generic (COp "Set" [k1] (ArgB va))] (COp "RenameNx" [k1; k0] ArgNone) (Generic (COp "Get" [k0] ArgNone)) /\
-  refuted_by [Generic (COp "Set" [k0] (ArgB va))] (COp "MSetNx" [k1; k0] (ArgL [va; vb])) (FastGet false k0) /\
-  refuted_by [Generic (COp "RPush" [d1] (ArgL [vb; va]))] (COp "Sort" [d1; d0] ArgNone) (Generic (COp "LLen" [d0] ArgNone)).
-Proof.
-  repeat split; try (apply Forall_cons; split; [|apply Forall_nil]); try single_home_op;
-    try (cross_op d1 d0); try (cross_op k1 k0); try differs.
-Qed.
-
-Lemma keyless_witness :
-  refuted_by [Generic (COp "Set" [k1] (ArgB va))] (COp "RandomKey" [] ArgNone) (Generic (CPing None)).
-Proof.
-  repeat split; try (apply Forall_cons; split; [|apply Forall_nil]); try single_home_op; try differs.
-  - right. split; [done|]. by vm_compute.
-  - intros [x [y [Hx _]]]. by apply elem_of_nil in Hx.
-Qed.
-
-(* ================================================================ a concrete run (non-vacuity) *)
-Definition ex_run : list (req arg) :=
-  [ FastSet false d0 va;
-    Generic (COp "Get" [d0] ArgNone);
-    Generic (CMSet [(d1, vb); (k0, va); (k1, vb)]);
-    Generic (CMGet [d0; d1; k0; k1; d0]);
-    PipeSet [(d1, va); (k1, va)];
-    PipeGet [k1; d1; d0];
-    FastSet true k0 vb;
-    FastGet true k0;
-    Generic (COp "Append" [k0] (ArgB va));
-    Generic (COp "RPush" [[100; 50]] (ArgL [va; vb]));
-    Generic (COp "LPop" [[100; 50]] ArgNone);
-    Generic (CExists [d0; d1; [120]; d0]);
-    Generic CDbSize;
-    Generic (CKeys [100; 49]);
-    Generic (CScan 0 None (Some 2%N));
-    Generic (CScan 2 None (Some 2%N));
-    Generic (CDel [d0; k1; [120]]);
-    Generic (CDel [d1]);
-    Generic CDbSize;
-    Generic (CFlush false);
-    Generic CDbSize ].
-Definition ex_replies : list reply :=
-  Eval vm_compute in (runN mini home_str home_bytes [∅] ex_run).2.
-
-Ltac single_home_arm :=
-  split; [done|split; [intros [x [y [Hx _]]]; by apply elem_of_nil in Hx|by intros []]].
-Lemma ex_run_ok :
-  Forall (SingleHome mini home_str 3) ex_run /\
-  home_str 3 d0 <> home_str 3 d1 /\
-  (runN mini home_str home_bytes (replicate 3 ∅) ex_run).2 = (runN mini home_str home_bytes [∅] ex_run).2 /\
-  (runN mini home_str home_bytes (replicate 3 ∅) ex_run).2 = ex_replies.
-Proof.
-  split; [|split; [by vm_compute|split; by vm_compute]].
-  unfold ex_run. repeat (apply Forall_cons; split); try apply Forall_nil; try done;
-    try single_home_arm; try single_home_op.
-Qed.
